@@ -79,6 +79,20 @@ PROPS = {
         "level_text": "Definition, supported codes, code agreement, 'valid iff hash of this value under the hash's own algorithm' and content addressing (modulo explicit collision) proved generically in the hash functions; base64url and multihash round trips proved; decoder leniency modelled and shown harmless because validation compares encoded strings. Correspondence with real SHA-2 computed in Gallina.",
         "technique": "Coq proof + differential correspondence with Gallina SHA-2",
     },
+    "C13": {
+        "props": "theories/Props/C13.v",
+        "agree": ["theories/Agree/AgreeTables.v"],
+        "trusted_base": COMMON_TB + [
+            "net/url (ParseRequestURI, Parse + String) is an oracle: verdicts computed by the harness with the standard library directly and passed per case",
+            "Go regexp semantics of ^[A-Za-z0-9_-]+$ (no multiline): modelled as the character-class predicate; the regexp source string itself is regenerated and compared",
+        ],
+        "assumptions": [],
+        "rule": "one valid patch per action plus one labelled mutation per constraint (id lengths 0/1/50/51 and bad characters, missing/duplicate/unknown members, every forbidden and a sample of allowed key type x purpose pairs, malformed JWK for every key type, base58 rules, service type 30/31, endpoint string / list / mixed list with a bad entry at every position, URI duplicates by normal form, replace members, ietf pointers over protected members, siblings, unrooted and null paths); ground truth attached by the generator. Plus original documents with id / context.",
+        "clauses": {"1": "verdict differs from the documented constraints (generator ground truth)", "2": "verdict differs from the model", "3": "docvalidator original-document verdict",
+                    "4": "didvalidator original-document verdict", "5": "PatchesFromDocument id rule"},
+        "level_text": "Sequential validator mirror proved equal to the declarative constraints (ids 1-50 of the character class, per-key constraints, uniqueness as NoDup, services, every endpoint list entry); key type x purpose matrix proved exhaustively by computation; tables and limits regenerated from source and proved equal to the model's. Relative to the net/url oracle.",
+        "technique": "Coq proof (mirror = spec, exhaustive finite matrix) + translator table agreement + differential correspondence",
+    },
     "C05": {
         "props": "theories/Props/C05.v",
         "agree": [],
